@@ -80,6 +80,8 @@ def run(ctx):
         ctx.guard(c08.keep_only, ctx, lambda: c18.who(ctx, cfg, fs), lambda o: o.key.startswith(('params::', '<params::')) and 'std::env::' in o.key, 'E.env-absence')
         ctx.guard(k5, ctx, cfg, fs)
         ctx.guard(retry_looks_at_failure, ctx, cfg, fs)
+        import consumers
+        ctx.guard(consumers.forkers, ctx, cfg, fs, 'K4.discipline')
         import wiring
         ctx.guard(wiring.builders, ctx, cfg, fs, 'B.builders', r'^(Parser::(many|some|optional|collect|count|last|fallback|fallback_with|guard|parse|map|hide)|structs::\w+::<.*>::catch|pure|pure_with|fail|params::NamedArg::(switch|flag|req_flag)|params::build_flag_parser)$')
         ctx.guard(loop_conditions, ctx, cfg, fs)
